@@ -260,17 +260,72 @@ def check_value_equivalence(ctx):
     # ---- admission by exact type
     res_adm = admission_row(src)
     rows.append(res_adm)
-    bad = [r for r in rows if not r['ok'] and not r.get('undecided')]
+    rows.append(ir_mirror_row(src))
+    bad = [r for r in rows if not r['ok']]
     if bad:
+        # failed rows: look for a failing binding on the real code; undecided rows (template / verb not in a tabulated shape): the same
+        # battery decides whether there is a concrete divergence (then it is a violation whatever the derivation), else they stay undecided
         from pyvc.run import run_replay
         import replay.c05 as rp
         for b in bad:
-            r = run_replay(rp.replay_values, dict(production=b.get('prod', 'admission')), b['name'], timeout_s=120)
+            fn_rp = rp.replay_rebinding if b.get('prod') == 'ir-mirror' else rp.replay_values
+            r = run_replay(fn_rp, dict(production=b.get('prod', 'admission')), b['name'], timeout_s=120)
             b['confirmed'] = bool(r.get('confirmed'))
             b['replay'] = dict(result=r, derivation=b['detail'])
             if r.get('confirmed'):
+                b['undecided'] = False
                 b['detail'] += f" | real code: {r.get('detail')}"
     return rows
+
+
+def ir_mirror_row(src):
+    """`_ast_to_ir` is a homomorphism from the expression to the IR: every return is None (not compilable) or a tuple tagged with the IR
+    kind of THAT node kind - in particular an adverb chain  op/arg  or  op\\arg  becomes ('reduce'|'scan', op, IR(arg)), never the
+    operand's IR alone (code specialised on what a variable held at compile time would be wrong after the variable is rebound: the
+    per-node memo is not invalidated)."""
+    name = f"{CO}::_ast_to_ir#ir-mirrors-the-expression"
+    fn = src.find(f"{CO}::_ast_to_ir")
+    if fn is None:
+        return dict(name=name, ok=False, undecided=True, backend='ast-structural', detail='_ast_to_ir not found')
+    kinds = {'literal', 'var', 'binop', 'cmp', 'negate', 'reduce', 'scan'}
+    bad = []
+    for r in ast.walk(fn):
+        if not isinstance(r, ast.Return):
+            continue
+        v = r.value
+        if v is None or (isinstance(v, ast.Constant) and v.value is None):
+            continue
+        def tag_ok(t):
+            if isinstance(t, ast.Constant):
+                return t.value in kinds
+            if isinstance(t, ast.IfExp):
+                return tag_ok(t.body) and tag_ok(t.orelse)
+            return False
+        if isinstance(v, ast.Tuple) and v.elts and tag_ok(v.elts[0]):
+            continue
+        bad.append(f"line {r.lineno}: return {ast.unparse(v)[:60]}")
+    # the adverb-chain branch returns exactly the tagged forms with the operator and the operand's IR
+    chain = None
+    for n in ast.walk(fn):
+        if isinstance(n, ast.If) and 'is_adverb_chain' in ast.unparse(n.test):
+            chain = n
+    tags = set()
+    if chain is not None:
+        for r in ast.walk(chain):
+            if isinstance(r, ast.Return) and isinstance(r.value, ast.Tuple) and r.value.elts:
+                t0 = r.value.elts[0]
+                for c in ([t0] if isinstance(t0, ast.Constant) else [t0.body, t0.orelse] if isinstance(t0, ast.IfExp) else []):
+                    if isinstance(c, ast.Constant):
+                        tags.add(c.value)
+                if len(r.value.elts) != 3:
+                    bad.append(f"line {r.lineno}: {ast.unparse(r.value)}")
+        if not tags <= {'reduce', 'scan'}:
+            bad.append(f"adverb-chain branch returns IR kinds {sorted(tags)}")
+    else:
+        return dict(name=name, ok=False, undecided=True, backend='ast-structural', detail='adverb-chain branch not found')
+    return dict(name=name, ok=not bad, backend='ast-structural', prod='ir-mirror',
+                detail=('; '.join(bad[:3]) + ' - the IR does not mirror the expression node') if bad else
+                       'every return is None or a tuple tagged with the node kind; chains become (reduce|scan, op, IR(arg))')
 
 
 def admission_row(src):
